@@ -175,12 +175,13 @@ Proof.
     apply r_len_count in E. destruct (len <? 0)%Z; [lia|].
     match goal with |- n + errn_elems ?f ?run ?en ?olds ?i ?ln ?r <= _ =>
       pose proof (errn_elems_le f run en
-        (fun o s v n rest H => Proofs.C06_more.read_count_exact fuel e o s v n rest H) (fun o s => IH o s) olds i ln r) end.
+        (fun o s v n rest H => Proofs.C06_more.read_count_exact fuel e o s v n rest (eq_trans (eq_sym (run_fast_eq _ s)) H))
+        (fun o s => IH o s) olds i ln r) end.
     lia.
   - destruct s as [|b rest]; [lia|]. rewrite lenN_cons.
     specialize (IH (match old with VOpt _ x => x | _ => zero_of e end) rest). lia.
   - destruct has; [apply IH|lia].
-  - destruct (run_flat (read_f fuel a _) s) as [[v na] rest| | |] eqn:E; try lia.
+  - rewrite run_fast_eq. destruct (run_flat (read_f fuel a _) s) as [[v na] rest| | |] eqn:E; try lia.
     apply Proofs.C06_more.read_count_exact in E. specialize (IHb (match old with VPair _ y => y | _ => zero_of b end) rest). lia.
 Qed.
 
